@@ -249,6 +249,11 @@ def verdict_pairs(R, C, ir, kind, rng, tier, repro, exhaustive=False):
                             val = [cur[i % len(cur)] for i in range(val[1])]
                         if md['style'] == 'bare' and not path and (val is None or val is refval.NIL):
                             continue
+                        if label == 'double_nan' and any(k in (lt.get('facets') or {}) for k in ('ge', 'gt', 'le', 'lt')):
+                            # XSD 1.0 part 2, 3.2.4/3.2.5: a bounding facet excludes NaN from the value space. libxml2 lets it through;
+                            # on this one input lxml is not the schema's word
+                            R.count('nan_with_bounds_not_judged')
+                            continue
                         if val is refval.NIL and (pos == 'attribute' or is_xmldata(ir, at, path)):
                             continue          # an attribute / text content cannot be nil
                         if val is refval.NIL and has_required_attribute(ir, lt):
